@@ -229,3 +229,21 @@ _ADDED9 = {
 }
 for _pid, _t in _ADDED9.items():
     CLAIMS[_pid]["text"] += " Round 9: " + _t
+
+_ADDED10 = {
+    "C01": "`$next` continues from the previous physical field unconditionally (R-NEXTPREV).",
+    "C04": "constructors that keep a size_t in a narrower member record the truncation in their ok flag (R-NARROWSTORE).",
+    "C06": "a substring taken between two tested delimiters is exactly the text between them (R-SUBSTRSPAN).",
+    "C09": "every error example is handed to mark_error (R-MARKERROR mark-loop clause).",
+    "C10": "reserved-prefix patterns shadow every ordinary name with that prefix (R-RESERVEDPREFIX).",
+    "C11": "no per-iteration temporary of one loop is read after it (R-STALELOOPVAR).",
+    "C12": "nothing skips a second match before the ambiguity is reported (R-NOPRECEDENCE).",
+    "C13": "`$present`'s argument is accepted only when it refers to a Field, as expression_bounds requires (R-PRESENTARG).",
+    "C14": "integer-or-None helpers are never tested for truth (R-ZEROFALSY).",
+    "C15": "the ordering graph has an edge for every reference-typed alternative of Expression (R-ORDEREDGES).",
+    "C16": "R-SNIPPETGUARD decides the guard arithmetically (index < len) with locals substituted.",
+    "C17": "the serialiser drops only None and empty lists (R-SERIALFILTER).",
+    "C18": "R-SERIALFILTER; every text produced by SourceLocation.__str__ carries the flag suffix (R-SRCLOC).",
+}
+for _pid, _t in _ADDED10.items():
+    CLAIMS[_pid]["text"] += " Round 10: " + _t
